@@ -107,8 +107,16 @@ def generate(ctx):
             else:
                 a, b, c = G.rand_slice(rng, max(nmol, 1), 25)
                 ops.append(["s", a, b, c])
-        yield {"kind": "system", "cls": "random", "vel": rng.random() < 0.5, "coordseed": rng.randrange(1 << 30),
-               "species": table, "blocks": blocks, "load": load, "ops": ops}
+        sp_table, cls = table, "random"
+        if rng.random() < 0.3:
+            # several species (distinct residue signatures, different residue counts) whose topologies carry the
+            # SAME [ moleculetype ] name (a generic "MOL"/"Protein"): instances must still be told apart by
+            # signature (seed C11-4: residues-per-species table keyed by molecule name)
+            shared = rng.sample(loadable, rng.randint(2, 4))
+            sp_table = [dict(sp, name="MOL") if k in shared else sp for k, sp in enumerate(table)]
+            cls = "random-shared-molecule-name"
+        yield {"kind": "system", "cls": cls, "vel": rng.random() < 0.5, "coordseed": rng.randrange(1 << 30),
+               "species": sp_table, "blocks": blocks, "load": load, "ops": ops}
     # ---- refusal stream
     wrong_order = {"name": "BBBr", "residues": list(reversed(S_BBB["residues"]))}
     wrong_names = {"name": "AAAx", "residues": [["AAA", _names("Z", 3)]]}
@@ -173,13 +181,22 @@ def _mol_view(system, mol, atoms_index):
 
 
 def _state(system):
-    st = {"nmols": len(system.different_molecules), "len": len(system),
-          "composition": sorted((str(k), int(v)) for k, v in system.composition.items() if v)}
+    st = {"nmols": len(system.different_molecules)}
+    # a public accessor that raises is an observation ("raises-<class>"), not a crash of the check: a refused
+    # topology that leaves blocks behind (seed C11-3) makes composition / len raise afterwards
+    try:
+        st["len"] = len(system)
+    except Exception as e:   # noqa: BLE001
+        st["len"] = "raises-" + G.err_name(e)
+    try:
+        st["composition"] = sorted((str(k), int(v)) for k, v in system.composition.items() if v)
+    except Exception as e:   # noqa: BLE001
+        st["composition"] = "raises-" + G.err_name(e)
     try:
         st["ordered"] = [tuple(int(x) for x in e) for e in system._molecules_ordered]
         st["avail"] = [int(x) for x in system._available_mgro_ordered]
         st["instances"] = [tuple(int(x) for x in e) for e in system._molecules_ordered_all_gen()]
-    except AttributeError:
+    except Exception:   # noqa: BLE001  (private bookkeeping renamed, or left inconsistent: not comparable)
         st["ordered"] = st["avail"] = st["instances"] = None
     return st
 
@@ -239,6 +256,11 @@ def evaluate(ctx, case):
             status = G.err_name(e)
         after = _state(sysm)
         adds.append((status, after))
+        if in_quantifier:
+            for f in ("len", "composition"):
+                if isinstance(after[f], str):
+                    ctx.oracle_fail(f"System.{f}:{after[f]}:after-add_ftop-{'accepted' if status == 'A' else 'refused'}",
+                                    case, {"species": species[k]["name"], "load": load, "status": status})
         # oracle: does the signature pattern occur as a run of unconsumed residues?
         pat = [(rn, len(nm)) for rn, nm in species[k]["residues"]]
         L = len(pat)
